@@ -7,6 +7,9 @@ package main
 
 import (
 	"fmt"
+	"go/ast"
+	"go/token"
+	"go/types"
 	"strings"
 )
 
@@ -32,6 +35,8 @@ func runC16(w *World, r *Report) {
 	r.Rule("word", "offset in bits 6..15, width-1 in bits 0..5 of the offset/width word", 2)
 	r.Rule("inverse", "the word decoders invert the word encoders", 2)
 	r.Rule("range", "range accessors and constructors agree (first/last vs offset/width)", 5)
+	r.Rule("nosentinel", "no code treats the zero range as 'no range': [0..0] is a legitimate one-bit range", 1)
+	noSentinelRule(w, r)
 
 	get := func(key string, rule string) *FuncInfo {
 		fi := w.Funcs[key]
@@ -327,4 +332,56 @@ func infeasible(c *bvCtx) bool {
 		}
 	}
 	return false
+}
+
+// noSentinelRule: a range value is never compared with another range value (in particular with the zero
+// value NXRange{}) to decide whether a range was given: the zero value is the one-bit range at bit 0, so
+// such a test silently treats it as absent (no mask is emitted, offset/width 0 is encoded).
+func noSentinelRule(w *World, r *Report) {
+	of := w.ByName["openflow13"]
+	if of == nil {
+		return
+	}
+	tn, _ := of.Types.Scope().Lookup("NXRange").(*types.TypeName)
+	if tn == nil {
+		r.Fail(VViolation, "nosentinel", "openflow13.NXRange", "", "-", "the range type no longer exists (anchor of the rule cannot be resolved)")
+		return
+	}
+	isRange := func(t types.Type) bool { return t != nil && types.Identical(t, tn.Type()) }
+	n, uses := 0, 0
+	for _, key := range w.sortedFuncKeys() {
+		fi := w.Funcs[key]
+		if fi.Decl.Body == nil {
+			continue
+		}
+		info := fi.Pkg.TypesInfo
+		touches := false
+		ast.Inspect(fi.Decl, func(nd ast.Node) bool {
+			if e, ok := nd.(ast.Expr); ok {
+				if t := info.TypeOf(e); t != nil {
+					if p, ok := t.Underlying().(*types.Pointer); ok {
+						t = p.Elem()
+					}
+					if isRange(t) {
+						touches = true
+					}
+				}
+			}
+			be, ok := nd.(*ast.BinaryExpr)
+			if !ok || (be.Op != token.EQL && be.Op != token.NEQ) {
+				return true
+			}
+			if isRange(info.TypeOf(be.X)) || isRange(info.TypeOf(be.Y)) {
+				n++
+				r.Fail(VViolation, "nosentinel", fi.Key, types.ExprString(be), w.Pos(be.Pos()), "a range value is compared as a whole ("+types.ExprString(be)+"): the zero value it is compared with is the legitimate range [0..0], which is then treated as 'no range'")
+			}
+			return true
+		})
+		if touches {
+			uses++
+		}
+	}
+	if n == 0 {
+		r.OK("nosentinel", "openflow13.NXRange", "", w.Pos(tn.Pos()), fmt.Sprintf("%d functions handle range values; none compares one as a whole (presence is decided by a nil pointer)", uses), true)
+	}
 }
